@@ -71,6 +71,14 @@ class CallMixin:
                     raise Unsupported("keywords with *args")
                 return self.call_value(callee, args, {}, node, env)
             # other callees: eval_args expands tuples of known arity / passes an opaque tuple as one StarArg
+        if isinstance(f, ast.Attribute) and f.attr == "join" and len(node.args) == 1 and isinstance(node.args[0], ast.GeneratorExp) and not node.keywords and not self.spec:
+            # (C03) `sep.join(<generator expression>)`: the generator is consumed completely and immediately, so it is the
+            # list comprehension with the same clauses (over-approximated as in _listcomp_map: element expression executed
+            # for one arbitrary position, no side effects); the joined string is what the "str.join" stub says
+            ge = node.args[0]
+            lc = ast.copy_location(ast.ListComp(elt=ge.elt, generators=ge.generators), ge)
+            recv = self.evalv(f.value, env)
+            return self.value_method(recv, "join", [self.eval(lc, env)], {}, node, env)
         args, kwargs = self.eval_args(node, env)
         if isinstance(f, ast.Attribute):
             # method on super()
@@ -228,8 +236,22 @@ class CallMixin:
             if isinstance(a, StarArg):
                 loc["star"] = a.v  # the unexpanded *tuple
             else:
+                if isinstance(a, EmptyLiteral) and ("a%d" % i) in c.params:
+                    # (C03) `[]` / the result of a comprehension over an empty iterable passed to a stub: the empty
+                    # value of the parameter type the stub declares
+                    a = self.materialize(a, self.types.parse_str(c.params["a%d" % i]))
                 loc["a%d" % i] = a
         loc.update(kwargs)
+        for pn, dflt in c.stub_defaults.items():
+            # (C03) optional parameter of an external function that the call leaves out: its documented default
+            # (contract key stub_defaults={"a2": "[]" | "None"})
+            if pn not in loc:
+                if dflt == "[]":
+                    loc[pn] = self.materialize(EmptyLiteral("list"), self.types.parse_str(c.params[pn]))
+                elif dflt == "None":
+                    loc[pn] = sym.coerce(NONE, self.types.parse_str(c.params[pn]))
+                else:
+                    raise Unsupported("stub default %r" % dflt)
         env = Env(loc, None)
         return self.apply_contract(c, env, key, None, node, ret_ty=self.types.parse_str(c.returns) if c.returns else TNone)
 
@@ -501,7 +523,12 @@ class CallMixin:
         if ret_ty == TNone:
             res = NONE
         else:
-            res = sym.fresh(ret_ty, self.ctx.fresh_name("ret_" + key.split(".")[-1]))
+            if c.allocates and c.trusted and isinstance(ret_ty, TRef) and not self.spec:
+                # (C03) stub of an external CONSTRUCTOR (contract key allocates=True): the result is a new object,
+                # distinct from every object that existed before (as for repository classes, new_object)
+                res = self.new_object(ret_ty.cls)
+            else:
+                res = sym.fresh(ret_ty, self.ctx.fresh_name("ret_" + key.split(".")[-1]))
             for f in sym.wf(res):
                 self.ctx.assume(f)
             if isinstance(ret_ty, TRef):
@@ -632,10 +659,13 @@ class CallMixin:
             loc[n] = V(tys[n], c)
         e2 = env.child(loc)
         self.spec += 1
+        saved_bound = getattr(self, "_bound_vars", [])
+        self._bound_vars = saved_bound + bound  # read by sp_set_of (definitional extensions need closed terms)
         try:
             body = self.truth(self.evalv(lam.body, e2))
         finally:
             self.spec -= 1
+            self._bound_vars = saved_bound
         pats = []
         for kw in node.keywords:
             if kw.arg == "pattern":
@@ -703,11 +733,48 @@ class CallMixin:
         loc[names[0]] = V(TInt, c)
         e2 = env.child(loc)
         self.spec += 1
+        saved_bound = getattr(self, "_bound_vars", [])
+        self._bound_vars = saved_bound + [c]
         try:
             body = self.evalv(lam.body, e2)
         finally:
             self.spec -= 1
+            self._bound_vars = saved_bound
         return V(TArr(TInt, body.ty), z3.Lambda([c], body.t))
+
+    def sp_set_of(self, node, env):
+        """set_of(lst[, cond]): spec only - the SET of the elements of the list value `lst` (the empty set when the
+        optional condition is false): { c | cond and exists i. 0 <= i < len(lst) and lst[i] == c } as a set[T] value."""
+        self.spec += 1
+        try:
+            lst = self.evalv(node.args[0], env)
+            cond = self.truth(self.evalv(node.args[1], env)) if len(node.args) > 1 else z3.BoolVal(True)
+        finally:
+            self.spec -= 1
+        if isinstance(lst.ty, TOpt):
+            lst = sym.opt_val(lst)
+        if not isinstance(lst.ty, TList) or sym.sort_of(lst.ty.elem) != z3.IntSort():
+            raise Unsupported("set_of(%s)" % lst.ty)
+        # DEFINITIONAL EXTENSION instead of a z3 Lambda (array-valued lambdas as arguments of uninterpreted functions make
+        # z3's array theory incomplete): a fresh set constant S with the axiom  forall c. S[c] <=> cond and exists i ...
+        # Conservative (such an S exists for every list value) PROVIDED list and condition are closed terms: refused when
+        # they mention a variable bound by an enclosing quantifier.
+        from z3 import z3util
+
+        bound = getattr(self, "_bound_vars", [])
+        for t in (lst.t, cond):
+            if any(any(v.eq(b) for b in bound) for v in z3util.get_vars(t)):
+                raise Unsupported("set_of() of a term depending on a quantified variable")
+        cache = self.ctx.__dict__.setdefault("_set_of_cache", {})
+        key = (lst.t.get_id(), cond.get_id())
+        if key not in cache:
+            S = self.ctx.fresh_const(z3.ArraySort(z3.IntSort(), z3.BoolSort()), "set_of")
+            c = z3.FreshConst(z3.IntSort(), "so_c")
+            i = z3.FreshConst(z3.IntSort(), "so_i")
+            body = z3.And(cond, z3.Exists([i], z3.And(0 <= i, i < sym.list_len(lst), z3.Select(sym.list_arr(lst), i) == c)))
+            self.ctx.assume(z3.ForAll([c], z3.Select(S, c) == body, patterns=[z3.Select(S, c)]))
+            cache[key] = (S, lst.t, cond)  # keep the terms alive (ids are only unique among live ASTs)
+        return V(sym.TSet(lst.ty.elem), cache[key][0])
 
     def sp_invariant_of(self, node, env):
         """invariant_of(obj): the conjunction of the class invariants of obj's (static) class - to state, in an assume_pre,
